@@ -103,6 +103,30 @@ Definition is_pure_cmdsub (w : tree) : bool :=
   | _ => false
   end.
 
+(* allowlists.sets_execution_var(word): the word is NAME=value or NAME+=value, NAME decides what runs - except a PATH
+   assigned (not appended) a list of system directories only *)
+Fixpoint take_ident (s : str) : str := match s with c :: r => if ident_char c then c :: take_ident r else [] | [] => [] end.
+Definition sets_execution_var (w : str) : bool :=
+  match w with
+  | c :: r =>
+      if negb (ident_start c) then false else
+      let name := c :: take_ident r in
+      let rest := skipn (length name) w in
+      match rest with
+      | 61 :: v => mem_str name EXECUTION_ENV_VARS &&
+                   negb (str_eqb name $"PATH" && forallb (fun d => mem_str d SYSTEM_PATH_DIRS) (split_ch 58 v))
+      | 43 :: 61 :: _ => mem_str name EXECUTION_ENV_VARS
+      | _ => false
+      end
+  | [] => false
+  end.
+(* the assignment prefix of a command: an "ask" for every word that sets a variable deciding what runs *)
+Fixpoint env_asks (nassign pos : nat) (words : list str) : list verdict :=
+  match words with
+  | [] => []
+  | w :: rest => (if Nat.ltb pos nassign && sets_execution_var w then [Ask] else []) ++ env_asks nassign (S pos) rest
+  end.
+
 (* _names_variable(base, words, position, base_idx): bash evaluates this argument of a builtin as a variable name *)
 Definition names_variable (base : str) (words : list str) (position nassign : nat) : bool :=
   Nat.ltb nassign position &&
@@ -397,7 +421,7 @@ Section Walker.
       let inj :=
         if existsb (fun p => is_pure_cmdsub (fst p)) (skipn (S nassign) ws)
         then (if injrisk c tokens then [Ask] else []) else [] in
-      combine (subst ++ name_scans c base words nassign 0 (map fst ws) ++ inj ++ redirs kr c ++
+      combine (subst ++ env_asks nassign 0 words ++ name_scans c base words nassign 0 (map fst ws) ++ inj ++ redirs kr c ++
                match words with
                | [] => [Allow]
                | _ => if mem_str base TEST_COMMANDS && negb (rulematch c tokens) then [Allow] else [simple c words]
